@@ -406,6 +406,7 @@ def correspond(model_ok, res):
     shipped = [x for x in TR if x[4]]
     extra = [x for x in TR if not x[4]]
     cases, payloads = [], []
+    guard_cases, guard_payloads, guard_same, guard_trees = [], [], [], []   # (implementation's T(t), oracle verdict)
     parsed_strings, parsed_results = [], []
     seen = set()
     dist = {"rejected_inputs": 0, "oracle_evaluations": 0, "transformer": {}, "verdict": {}, "atoms": {}, "non_exhaustive_tables": 0,
@@ -471,8 +472,18 @@ def correspond(model_ok, res):
                 if nnodes > 1:
                     seen.add((s, gterm))
             else:
+                key = name + "".join("/%s" % v for k, v in sorted(opts.items()) if k != "add_head") + \
+                    "/add_head=%r" % opts.get("add_head")
                 dv = dist["non_default_add_head_verdicts"]
                 dv[verdict] = dv.get(verdict, 0) + 1
+            if t1 is not None:     # the proved guard Regen.regen_ok, evaluated on the implementation's output
+                try:               # (the theorems hold for ANY add_head: the caller-supplied ones are judged too)
+                    guard_cases.append(lib.g_item(t1))
+                    guard_same.append(verdict == "VSame")
+                    guard_payloads.append(dict(payload, transformer_key=key, verdict=verdict))
+                    guard_trees.append(t1)
+                except lib.Unmodelled:
+                    pass
             dist["oracle_evaluations"] += 1
             if ti not in in_model:
                 continue
@@ -538,7 +549,135 @@ def correspond(model_ok, res):
             res.disagreements.append({"query": parsed_strings[i], "what": "model parser differs on the input query"})
     except Exception as e:
         res.model_error = "%s: %s" % (type(e).__name__, e)
+        return res
+    guard_check(T, res, dist, guard_cases, guard_same, guard_payloads, guard_trees)
     return res
+
+
+def lower_under_higher(T, t1):
+    """an operation of lower precedence directly under a higher one: OR / implicit / Bool under AND, implicit / Bool
+    under OR (F10's shape; an implicit operation under AND / OR in a PARSED tree is F4's shape), or any operation
+    directly under NOT + - field: ^"""
+    lvl = {T.AndOperation: 2, T.OrOperation: 1, T.UnknownOperation: 0, T.BoolOperation: 0}
+    for _, n in gentree.all_nodes(t1):
+        if type(n) in lvl and len(n.children) != 1:
+            if any(type(c) in lvl and len(c.children) != 1 and lvl[type(c)] < max(lvl[type(n)], 1) for c in n.children):
+                return True
+        elif isinstance(n, (T.Not, T.Plus, T.Prohibit, T.SearchField, T.Boost)):
+            if any(type(c) in lvl and len(c.children) != 1 for c in n.children):
+                return True
+    return False
+
+
+def explained_outside(T, t1):
+    """which known predicate explains that a transformed tree is outside the proved guard"""
+    out = []
+    if any(isinstance(n, T.BoolOperation) for _, n in gentree.all_nodes(t1)):
+        out.append("bool(F10c)")
+    if lower_under_higher(T, t1):
+        out.append("levels(F10/F4)")
+    if fused_field(T, t1):
+        out.append("fused_field(F1)")
+    if operator_fuses(T, t1):
+        out.append("operator_fuses(F10b)")
+    if not out:
+        import re
+        for _, n in gentree.all_nodes(t1):     # the one place where the guard's local criterion is wider than the
+            if isinstance(n, T.SearchField) and ":" in n.name and \
+                    re.match(r"\d\d", n.expr.__str__(head_tail=True)):    # lexer: AhtRoundTrip.name_glue (see C13r.v)
+                out.append("name_glue corner (a field name containing a colon in front of two digits)")
+                break
+    return out
+
+
+def guard_check(T, res, dist, guard_cases, guard_same, guard_payloads, guard_trees):
+    """The proved theorems C11_regen / C11_resolve_partial / C11_openrange_partial (props/C11r.v): the executable guard
+    `Regen.regen_ok` is evaluated (vm_compute) on the tree the IMPLEMENTATION's transformer returned; inside the guard
+    the implementation's print -> re-parse -> truth table must say 'same meaning'.  Also measured: how many cases are
+    inside, per transformer; why the others are outside (levels / BoolOperation = findings F10 / F10c and F4-shaped
+    inputs, another shape defect, a fusing lexeme = F10b / F1) and how many of those hold anyway (the guard is
+    conservative there: validated only).  Canaries: a tree known to be inside must be counted inside, a tree known to
+    be outside must not."""
+    imports = "Base Decimal Tree TreeEq Lexer Print Regen"
+    defs = ("Definition chk_in (t : item) : bool := negb (regen_ok t).\n"
+            "Definition chk_shape (t : item) : bool := gshape t.\n"
+            "Definition chk_other (t : item) : bool := gshape t || lower_under_higher t || has_bool t.")
+    inside = T.AndOperation(T.Word("a", tail=" "), T.Group(T.OrOperation(T.Word("b", tail=" "), T.Phrase('"c d"', head=" ")),
+                                                           head=" "))
+    outside = T.AndOperation(T.Word("a"), T.Group(T.Word("b"), head=" "))          # prints `aAND (b)`
+    n = len(guard_cases)
+    try:
+        in_idx = lib.eval_cases("C11", imports, defs, guard_cases + [lib.g_item(inside), lib.g_item(outside)],
+                                "chk_in", shard=150)
+    except Exception as e:
+        res.model_error = "guard evaluation: %s: %s" % (type(e).__name__, e)
+        return
+    if n not in in_idx or n + 1 in in_idx:
+        res.model_error = "canary not detected: the regen_ok comparison is vacuous"
+        return
+    in_set = set(i for i in in_idx if i < n)
+    out_list = [i for i in range(n) if i not in in_set]
+    g = {"cases": n, "inside": len(in_set), "inside_by_transformer": {}, "cases_by_transformer": {},
+         "outside": len(out_list), "outside_and_same_meaning (guard conservative, validated only)": 0,
+         "outside_failing (all classified as known findings by the oracle above)": 0,
+         "outside_why": {"levels_or_bool_or_F4_shape": 0, "other_shape": 0, "lexeme_fuses_only": 0},
+         "outside_explained_by_known_predicate": {}, "outside_unexplained": 0,
+         "outside_unexplained_with_the_default_add_head": 0}
+    for i in range(n):
+        k = guard_payloads[i]["transformer_key"]
+        g["cases_by_transformer"][k] = g["cases_by_transformer"].get(k, 0) + 1
+        if i in in_set:
+            g["inside_by_transformer"][k] = g["inside_by_transformer"].get(k, 0) + 1
+            if not guard_same[i]:
+                res.failures.append((dict(guard_payloads[i], why="inside the proved guard regen_ok (C11_regen, "
+                                          "C11_resolve_partial, C11_openrange_partial) but the implementation's output "
+                                          "does not re-parse to a tree with the same meaning"), None))
+        else:
+            if guard_same[i]:
+                g["outside_and_same_meaning (guard conservative, validated only)"] += 1
+            else:
+                g["outside_failing (all classified as known findings by the oracle above)"] += 1
+            why = explained_outside(T, guard_trees[i])   # the guard excludes nothing but the known classes
+            kk = "+".join(why) if why else "unexplained"
+            g["outside_explained_by_known_predicate"][kk] = g["outside_explained_by_known_predicate"].get(kk, 0) + 1
+            if not why and guard_payloads[i]["options"].get("add_head", " ") == " ":
+                g["outside_unexplained_with_the_default_add_head"] = \
+                    g.get("outside_unexplained_with_the_default_add_head", 0) + 1
+                g.setdefault("unexplained_default_samples", []).append(
+                    {k: guard_payloads[i].get(k) for k in ("query", "transformer_key", "printed", "verdict")})
+            if not why:
+                g["outside_unexplained"] += 1
+                g.setdefault("unexplained_samples", [])
+                if len(g["unexplained_samples"]) < 8:
+                    g["unexplained_samples"].append({k: guard_payloads[i].get(k) for k in
+                                                     ("query", "transformer_key", "printed", "verdict")})
+    if out_list:
+        try:
+            sub = [guard_cases[i] for i in out_list]
+            sh = set(lib.eval_cases("C11", imports, defs, sub, "chk_shape", shard=150))       # gshape false
+            ot = set(lib.eval_cases("C11", imports, defs, sub, "chk_other", shard=150))       # ... for another reason
+        except Exception as e:
+            res.model_error = "guard classification: %s: %s" % (type(e).__name__, e)
+            return
+        for j, i in enumerate(out_list):
+            if j in ot:
+                g["outside_why"]["other_shape"] += 1
+                g.setdefault("other_shape_samples", [])
+                if len(g["other_shape_samples"]) < 5:
+                    g["other_shape_samples"].append({k: guard_payloads[i][k] for k in ("query", "transformer_key", "verdict")})
+            elif j in sh:
+                g["outside_why"]["levels_or_bool_or_F4_shape"] += 1
+            else:
+                g["outside_why"]["lexeme_fuses_only"] += 1
+            if guard_same[i]:
+                g.setdefault("conservative_samples", [])
+                if len(g["conservative_samples"]) < 60:
+                    g["conservative_samples"].append(
+                        [guard_payloads[i]["query"], guard_payloads[i]["transformer_key"],
+                         guard_payloads[i].get("printed"), "shape" if j in sh else "lexeme"])
+    dist["proved_guard_regen_ok"] = g
+    if len(in_set) < 100:
+        res.model_error = "only %d generated (query, transformer) outputs are inside the guard regen_ok" % len(in_set)
 
 
 def parsed_or_msg(kind, val):
@@ -548,7 +687,7 @@ def parsed_or_msg(kind, val):
 SPEC = {
     "id": "C11",
     "targets": ["props/C11.vo"],
-    "model_targets": ["model/Meaning.vo"],
+    "model_targets": ["model/Meaning.vo", "model/Regen.vo"],
     "module": "C11",
     "theorems": ["C11_refuted", "C11_resolve_and_refuted", "C11_resolve_lucene_refuted", "C11_resolve_or_refuted",
                  "C11_refuted_F10b", "C11_refuted_F10b_or", "C11_refuted_F10c", "C11_refuted_F1", "C11_aht_refuted",
@@ -559,7 +698,12 @@ SPEC = {
                  "C11_equal_tree_modulo_lexing", "C11_copy_modulo_lexing", "C11_aht_modulo_lexing", "C11_aht_total"],
     # auto_head_tail end to end: token-granular lossless theorem (proofs/TokenLayoutProofs.v) + L-respace
     "more": [{"module": "C11p", "target": "props/C11p.vo",
-              "theorems": ["C11_aht_partial", "C11_fills_partial", "C01_token_layout", "C01_layout_spells"]}],
+              "theorems": ["C11_aht_partial", "C11_fills_partial", "C01_token_layout", "C01_layout_spells"]},
+             # the positive statement for the resolver, the open-range transformer and every other shipped transformer,
+             # under the executable guard Regen.regen_ok on the transformer's output (proofs/ResolverRoundTripProofs.v)
+             {"module": "C11r", "target": "props/C11r.vo",
+              "theorems": ["C11_regen", "C11_regen_tokens", "C11_resolve_partial", "C11_openrange_partial",
+                           "C11_resolve_open_partial", "C11_shipped_partial", "C11_regen_unguarded_refuted"]}],
     "correspond": correspond,
     "statement": "for every parsed query t and shipped transformer T (copy, auto_head_tail, resolver x 4 targets, open "
                  "ranges x merge, resolve-then-open-range; add_head = one blank), parse(str(T(t))) succeeds and has the "
@@ -567,7 +711,13 @@ SPEC = {
                  "shipped transformer (F10 'x OR y z'; F10b 'a(b)'; F10c 'a b' to BoolOperation; F1 '-xT12 :30'). Proved: "
                  "the default copy under C01's guard (and copy / auto_head_tail whenever the printed tree lexes to the "
                  "query's tokens); well-definedness of the meaning. C11_aht_partial (C11p.v): the statement for "
-                 "auto_head_tail on every parsed query without ghost event (C01's guard, excludes F1)",
+                 "auto_head_tail on every parsed query without ghost event (C01's guard, excludes F1). "
+                 "C11_resolve_partial / C11_openrange_partial / C11_resolve_open_partial / C11_shipped_partial (C11r.v): the "
+                 "statement for UnknownOperationResolver (every target, Lucene mode, ANY add_head), OpenRangeTransformer "
+                 "(with / without merge_ranges, ANY add_head), their composition and every shipped transformer, for every "
+                 "parsed query whose TRANSFORMED tree is inside the executable guard Regen.regen_ok (= not F10, not F10c, "
+                 "not F10b / F1's fused field, not an F4-shaped tree); they are instances of C11_regen: ANY tree inside "
+                 "the guard prints to a query that parses to a tree with the same meaning",
     "level_text": "Coq proof (PARTIAL) + correspondence. Proved: (1) the full statement is refuted by computed witnesses, one "
                   "per defect class, and C11_every_transformer_refuted: NO shipped transformer satisfies it on all parsed "
                   "queries (F1's fused field breaks even the default copy); (2) the boolean meaning `sem` is a function of "
@@ -587,8 +737,32 @@ SPEC = {
                   "tree is, token by token, the layout of the query's tokens - an invariant of the 25 semantic actions), on "
                   "daht_fills (auto_head_tail only sets empty heads/tails to one blank) and on the lexer theorem L-respace; "
                   "C11_fills_partial is the same for ANY tree that only fills empty heads/tails of the parsed one. "
-                  "NOT proved: the positive statement for the resolver and "
-                  "the open-range transformer: these are validated on every "
+                  "(8) C11r.v, END TO END for the resolver and the open-range transformer (and every other shipped "
+                  "transformer, without C01's guard): C11_regen = for ANY tree x (with the layout it carries) inside the "
+                  "executable guard regen_ok (model/Regen.v), print true x has no lexical error, lexes to the expected "
+                  "lexemes `lexemes x`, each typed as it is typed standing alone, which is the yield of a well-formed "
+                  "syntax tree of the documented grammar satisfying C03d's guard (AND under AND / OR under OR re-associated "
+                  "to the left as the parser reads them), is accepted by the LR driver on the generated tables (C03d's "
+                  "machinery), and the tree returned has the boolean meaning of x (C11_regen_tokens). regen_ok = gshape "
+                  "(every node is what one grammar rule builds; numerals read back as printed; no operation of lower "
+                  "precedence directly under a higher one = F10's shape; no BoolOperation = F10c; not F4's pattern) AND scan "
+                  "(a LOCAL criterion on the printed form, the lexer is not run: each expected lexeme is followed by "
+                  "blanks or by a character it cannot absorb: a TERM-rule lexeme by a character the TERM rule stops at - "
+                  "with the time syntax excluded after a colon -, < > not by =, ~n ^n not by a digit: what fails in F10b "
+                  "`aAND (b)` and in F1's `-xT12:30`). C11_resolve_partial, C11_openrange_partial, C11_resolve_open_partial, "
+                  "C11_shipped_partial are its instances for the transformers (any target, Lucene mode, merge or not, ANY "
+                  "add_head). Each guard component is shown needed by a witness (C11r_levels_needed, C11r_bool_needed, "
+                  "C11r_scan_needed, C11r_shape_needed; C11_regen_unguarded_refuted); an AND directly under an AND (the "
+                  "resolver's output for `a b AND c`) is inside the guard: it is read flattened, with the same meaning "
+                  "(C11r_flatten_inside). On every run harness/c11.py evaluates regen_ok (vm_compute) on the tree the "
+                  "IMPLEMENTATION's transformer returned for every generated (query, transformer, add_head) and requires "
+                  "the implementation's print -> re-parse -> truth table to say 'same meaning' whenever the guard holds "
+                  "(two canaries); it also measures that every output outside the guard is explained by an executable "
+                  "predicate of a known class (BoolOperation F10c, lower-under-higher F10 / an F4-shaped parsed tree, "
+                  "fused field F1, fusing operator F10b; the documented name_glue corner) and that no node-shape component "
+                  "ever fails on a transformer's output. "
+                  "NOT proved: the statement OUTSIDE the guard where it nevertheless holds (F4-shaped trees under copy / "
+                  "auto_head_tail / open ranges, a few per thousand generated cases): validated on every "
                   "run by the correspondence, which evaluates the executable statement both on the real code "
                   "(parser.parse(str(T(tree))), truth tables over <= 10 atoms, both defaults) and on the composed Coq models "
                   "(Parser.parse (Print.print (run_t T t)) and meaning_eqb by vm_compute) and compares printed strings, "
@@ -603,6 +777,9 @@ SPEC = {
         "Eq.v — tied by differential correspondence on every run",
         "Unknown operations are read with a default operator (AND or OR, both checked); BoolOperation as the "
         "Lucene/Elasticsearch boolean query; boosts are kept as part of the atoms below them",
+        "C11r.v: the executable guard coq/model/Regen.v regen_ok (evaluated on the model for every transformer output "
+        "of the implementation, with two canaries); the lexer model Lexer.v and the generated LR tables (through "
+        "proofs/GrammarMoreProofs.v, C03d)",
     ],
     "assumptions": ["trees come from luqum's parser (programmatic trees are outside the property)",
                     "state kept on a transformer instance or keyed on id(tree) is outside the value model (the Coq "
